@@ -96,6 +96,11 @@ func main() {
 			}{"Extrude3D(Text2D)", sdf.Extrude3D(t2, 1)})
 		}
 	}
+	// layers of exactly 100 samples: one full evaluation batch and nothing left over
+	fmt.Fprintf(os.Stderr, "@@SUBJECT %d uniform render of Sphere3D at 8 cells (layers of exactly 100 samples)\n", len(subs)+len(scenes))
+	for r := 0; r < 3; r++ {
+		render.ToTriangles(sph, render.NewMarchingCubesUniform(8))
+	}
 	for i, sc := range scenes {
 		fmt.Fprintf(os.Stderr, "@@SUBJECT %d uniform render of %s\n", len(subs)+i, sc.name)
 		render.ToTriangles(sc.s, render.NewMarchingCubesUniform(12))
